@@ -1012,7 +1012,8 @@ builtins = {
     
     'forcst' : lambda *args: forcst_(args),
 
-    'lookup' : lambda *args : "( self.memoize(\"{}\", {}) )".format(remove_nesting(args)[0]["name"],parseExpression(remove_nesting(args)[1])),
+    # LOOKUP(gf, x) is the graphical function at x, whatever the graphical function's own equation and the time grid are
+    'lookup' : lambda *args : "( LERP( {}, self.points[\"{}\"]) )".format(parseExpression(remove_nesting(args)[1]),remove_nesting(args)[0]["name"]),
 
     'lookupinv' : lambda *args : "( self.lookupinv(\"{}\", {}) )".format(remove_nesting(args)[0]["name"],parseExpression(remove_nesting(args)[1])),
 
